@@ -30,7 +30,7 @@ TRANSPORTS = ["bytesio", "simfile", "path"]
 # relative tolerance of the stored representation, by format family
 def fmt_tol(fmt, digits=None):
     base = fmt.split("_", 1)[1] if fmt.startswith(("zip_", "targz_")) else fmt
-    if base == "obj" and digits:
+    if base in ("obj", "off") and digits:
         # the writer was asked for `digits` decimals
         return 10.0 ** -int(digits)
     if base in fw.EXACT:
@@ -53,6 +53,9 @@ CARRIES = {
     "corner_colors": {"ply", "ply_ascii", "glb", "gltf", "obj", "dict", "dict64", "zip_ply", "zip_glb", "targz_obj"},
     "face_colors": {"ply", "dict", "dict64", "zip_ply"},  # (the ascii PLY writer deliberately omits face colours)
     "colors": {"ply", "xyz", "glb"},
+    "corner_uv": {"ply", "ply_ascii", "obj", "glb", "gltf", "dae", "zip_ply", "targz_obj"},
+    "face_quality": set(),
+    "corner_weight": set(),
 }
 
 
@@ -79,6 +82,9 @@ def snapshot(obj):
     return s
 
 
+OPTS = {}
+
+
 def compare_content(got, want, tol_rel, ctx, oracle, fmt, exact=False):
     if got["kind"] != want["kind"]:
         ctx.fail(oracle, fmt + "-kind", f"loaded {got['kind']} for exported {want['kind']}")
@@ -86,12 +92,16 @@ def compare_content(got, want, tol_rel, ctx, oracle, fmt, exact=False):
         if key == "kind":
             continue
         if key not in got:
-            if key in ("corner_colors", "face_colors", "colors") and fmt not in CARRIES[key]:
-                continue  # colours are demanded only where the format carries them
+            if key in CARRIES and fmt not in CARRIES[key]:
+                continue  # colours / uv / attributes are demanded only where the format carries them
+            if key == "corner_uv" and "ply" in fmt and OPTS.get("include_attributes") is False:
+                continue  # the PLY writer stores texture coordinates as vertex attributes, which the option switched off
             ctx.fail(oracle, fmt + "-" + key, "missing after load")
         a, b = got[key], want[key]
         if key in ("corner_colors", "face_colors", "colors"):
             bad = same(np.asarray(a)[..., :3], np.asarray(b)[..., :3], 0, key)
+        elif key in ("corner_uv", "face_quality", "corner_weight"):
+            bad = same(a, b, 1e-6, key)
         elif isinstance(b, (list, str, int)) and not (isinstance(b, list) and len(b) and isinstance(b[0], np.ndarray)):
             bad = None if a == b else f"{key}: {a} != {b}"
         else:
@@ -131,7 +141,9 @@ class C08(World):
 
     def swarm(self, rng):
         kind, fmt = rng.choice(fw.ALL_PAIRS)
-        return {"kind": kind, "fmt": fmt, "route": rng.choice(ROUTES[kind]), "transport": rng.choice(TRANSPORTS), "digits": rng.choice([None, None, 6, 12])}
+        return {"kind": kind, "fmt": fmt, "route": rng.choice(ROUTES[kind]), "transport": rng.choice(TRANSPORTS), "digits": rng.choice([None, None, 6, 12]),
+                "opts": {"vertex_normal": rng.choice([None, True, False]), "include_attributes": rng.choice([None, True, False]), "include_normals": rng.choice([None, True, False]),
+                         "include_color": rng.choice([None, True]), "merge_buffers": rng.choice([None, True]), "embed_buffers": rng.choice([None, True]), "unitize_normals": rng.choice([None, False])}}
 
     def generate(self, rng, cfg):
         return {"config": cfg, "ops": [{"op": "pipe", "geom": fw.random_geometry_recipe(rng, cfg["kind"]), "rs": rng.randrange(2**31)}]}
@@ -152,7 +164,11 @@ class C08(World):
 
     def _export(self, obj, fmt, cfg, ctx, oracle):
         try:
-            return fw.export_payload(obj, fmt, {"digits": cfg.get("digits")} if cfg.get("digits") else None)
+            opts = dict(cfg.get("opts") or {}, digits=cfg.get("digits"))
+            if cfg["kind"] != "mesh":
+                # the mesh-only encoding options (normals, attributes) are not defined for other kinds
+                opts = {"digits": opts.get("digits")}
+            return fw.export_payload(obj, fmt, opts)
         except (KeyboardInterrupt, SystemExit, MemoryError):
             raise
         except BaseException as e:
@@ -172,6 +188,8 @@ class C08(World):
 
     def _pipe(self, op, cfg, scratch, ctx):
         kind, fmt = cfg["kind"], cfg["fmt"]
+        OPTS.clear()
+        OPTS.update(cfg.get("opts") or {})
         r = op["geom"]
         obj = fw.build_geometry(r)
         shape = r.get("shape", "")
